@@ -21,10 +21,8 @@ const (
 func ValueOf(i interface{}) Value { return reflect.ValueOf(i) }
 
 // Select waits through the scheduler until one receive case is ready, then
-// runs the real reflect.Select (which then cannot block). Among several ready
-// cases the runtime picks pseudo-randomly; the harness keeps that from
-// mattering by construction (see NOTES) and replay verification detects it
-// when it does.
+// receives from the chosen case (which then cannot block). Among several ready
+// cases the choice is part of the schedule (vsched.SelectIndex).
 func Select(cases []SelectCase) (int, Value, bool) {
 	if vsched.Active() {
 		vsched.Yield()
@@ -39,14 +37,9 @@ func Select(cases []SelectCase) (int, Value, bool) {
 				panic("vreflect: send cases are not supported")
 			}
 		}
-		vsched.SelectWait(cs...)
-		// deterministic choice: the first ready case in case order
-		for i, c := range cs {
-			if vsched.CaseReady(c) {
-				ch, v, ok := reflect.Select([]SelectCase{cases[i]})
-				_ = ch
-				return i, v, ok
-			}
+		if i := vsched.SelectIndex(cs...); i >= 0 {
+			_, v, ok := reflect.Select([]SelectCase{cases[i]})
+			return i, v, ok
 		}
 	}
 	return reflect.Select(cases)
